@@ -8,6 +8,7 @@
   trip, which the harness exercises (suite `jobs`).  Import-free.
 -/
 import Model.PathsStore
+import Model.Csv
 
 namespace Model.Cache
 open Model.Paths (Str split)
@@ -26,5 +27,18 @@ def readBack (text : Str) : List Str := if text.isEmpty then [] else split comma
 
 /-- header lists the cache stores faithfully -/
 def safeCell (h : Str) : Bool := !(h.contains ',') && !(h.contains '"') && !(h.contains '\n') && !(h.contains '\r')
+
+/-! as repaired: the headers go through the csv module both ways -/
+
+/-- `csv.writer(buf)` / `csv.reader(file)`: the module's default dialect -/
+def cacheDialect : Model.Csv.Dialect := ⟨',', '"', 131072⟩
+
+/-- `_cache_lines_and_headers`: `csv.writer(buf).writerow(headers)`, written to the cache file -/
+def store (headers : List Str) : Str := Model.Csv.encRecordCRLF cacheDialect headers
+
+/-- `cached_text(filename, "csv")`: the first non-empty record `csv.reader` yields, `[]` when there
+    is none, `none` when reading raises (the caller then counts the file again) -/
+def load (text : Str) : Option (List Str) :=
+  (Model.Csv.read cacheDialect text).map (fun recs => (recs.find? (fun r => !r.isEmpty)).getD [])
 
 end Model.Cache
